@@ -160,6 +160,7 @@ func showNode(n *s2t.Node, sb *strings.Builder) {
 func perturb(n *s2t.Node, r *rand.Rand) *s2t.Node {
 	cp := *n
 	cp.Gen = false
+	cp.F64 = nil
 	switch n.Kind {
 	case 'L':
 		if len(n.Kids) > 0 && r.Intn(3) > 0 {
@@ -336,7 +337,11 @@ func main() {
 			if lk[0] == 'W' {
 				top -= 2
 			}
-			x.one(s2t.GenLeaf(lk[0], lk[1], top, r), "cap")
+			// the full round trip at the cap is run for four representative kinds (the extracted
+			// model needs minutes per 16 MiB numeric leaf); the refusal at cap+1 for every kind
+			if lk[0] == 'B' || lk[0] == 'O' || lk[0] == 'W' || (lk[0] == 'I' && lk[1] == 8) {
+				x.one(s2t.GenLeaf(lk[0], lk[1], top, r), "cap")
+			}
 			x.one(s2t.GenLeaf(lk[0], lk[1], top+1, r), "cap+1")
 		}
 	}
